@@ -33,6 +33,13 @@ def op(o):
         return "OBlock (mkBlock %s %s) %s" % (cN(o["num"]), clist([ev(e) for e in o.get("events") or []]), fs)
     if k == "reorg":
         return "OReorg %s" % cN(o["b"])
+    if k == "drive":
+        items = []
+        for b in o.get("blocks") or []:
+            f = b.get("fault")
+            fs = "None" if not f else "(Some (%s, %d%%nat))" % (TABLES[f["table"]], f["k"])
+            items.append("(mkBlock %s %s, %s)" % (cN(b["num"]), clist([ev(e) for e in b.get("events") or []]), fs))
+        return "ODrive %s" % clist(items)
     return {"restart": "ORestart", "snap": "OSnap", "reset": "OReset"}[k]
 
 
